@@ -7,6 +7,7 @@
 #include <dsched/dsched.h>
 
 #include <dispenso/for_each.h>
+#include <dispenso/completion_event.h>
 #include <dispenso/parallel_for.h>
 #include <dispenso/parallel_invoke.h>
 #include <dispenso/task_set.h>
@@ -370,6 +371,17 @@ void runTyped(Case& c, unsigned oracles) {
       dispenso::TaskSet outer(pool);
       outer.schedule(go, dispenso::ForceQueuingTag());
       outer.wait();
+    } else if (nest == 3 && n > 0) {
+      // the loop is called from a WORKER thread of the pool (the main thread only blocks on an event, so it cannot pick
+      // the task up itself): the caller then has a ring index of its own, and the library maps chunks around it
+      dispenso::CompletionEvent done;
+      pool.schedule(
+          [&]() {
+            go();
+            done.notify();
+          },
+          dispenso::ForceQueuingTag());
+      done.wait();
     } else {
       // the loop under test runs inside one body of an outer parallel_for
       dispenso::TaskSet outer(pool);
